@@ -41,7 +41,7 @@ class HPoint:
     base: str = "dict"
     hooks: tuple = ("pre_ser", "post_ser", "pre_de", "post_de")
     context: bool = False
-    fields: str = "holes"  # holes | nested | self
+    fields: str = "holes"  # holes | nested | self | none (no field at all) | noinit (only an init=False field)
     inner_context: bool = True
 
     def label(self):
@@ -75,6 +75,10 @@ def class_source(p: HPoint):
         src += ["    a: H1", "    b: Optional[H2] = None"]
     elif p.fields == "nested":
         src += ["    a: In", "    b: Optional[In] = None", "    c: List[In] = field(default_factory=list)"]
+    elif p.fields == "none":
+        src += ["    marker = 1"]
+    elif p.fields == "noinit":
+        src += ["    serial: int = field(init=False, default=0)"]
     else:
         src += ["    a: int", "    n: Optional[Self] = None", "    l: List[Self] = field(default_factory=list)"]
     src += hooks("    ")
@@ -92,7 +96,7 @@ def valid(p: HPoint):
         return False
     if p.context and p.base == "plain":
         return False
-    if p.context and "pre_ser" not in p.hooks and "post_ser" not in p.hooks and p.fields == "holes":
+    if p.context and "pre_ser" not in p.hooks and "post_ser" not in p.hooks and p.fields in ("holes", "none", "noinit"):
         return False
     return True
 
@@ -411,7 +415,7 @@ def lattice(tier):
     for base in BASES:
         for hs in hook_sets:
             for ctx in (False, True):
-                for fs in ("holes", "nested", "self"):
+                for fs in ("holes", "nested", "self", "none", "noinit"):
                     for inner in ((True, False) if fs == "nested" else (True,)):
                         if tier == "quick" and base in ("orjson", "msgpack") and hs not in (hook_sets[0], hook_sets[1], hook_sets[2], ()):
                             continue
